@@ -15,7 +15,7 @@ func init() {
 		rules: []ruleFunc{c15R1, c15R2, c15R3, c15Shared},
 		decided: "the tag table of the YAML conversion: each tag dispatches to its builder, !soft-optional -> WaitForCompletion=false, !wait-optional -> true, !ordisabled -> one-of with discriminator `result`, option `enabled` = the given expression, option `disabled` = <step path>.disabled.output, !oneof requires `discriminator` and `one_of` (R1); " +
 			"run-time selection: an optional value is absent exactly when its group node is not among the parent's resolved dependencies and is otherwise the evaluation of its expression, absent values are dropped from maps; a one-of takes the option named by a resolved dependency of type Or, with the discriminator set to that option id, and the writer and reader of option node ids use the same separator (R2); " +
-			"group node ids are derived from the consumer node id and the path of the tagged field, which grows at every nesting level (R3); tags map to their dependency kinds (C10.R2) and all walkers know the three kinds (C02.R1).",
+			"group node ids are derived from the consumer node id and the path of the tagged field, which grows at every nesting level (R3); tags map to their dependency kinds (C10.R2) and all walkers know the three kinds (C02.R1); a step accounts for every And-successor of a finished stage, so `disabled` is always finished or impossible once enabling finished (R6 = C12.R9).",
 		notDecided: "presence/absence as a function of the source's outcome and of event order (dgraph semantics and schedules).",
 	})
 }
@@ -439,4 +439,19 @@ func c15Shared(c *Ctx) {
 	c.explain("C15.R4 = C10.R2 (tag -> dependency kind) and C02.R1 (all walkers know the three expression kinds)")
 	relabel(c, "C10.R2", "C15.R4", c10R2)
 	relabel(c, "C02.R1", "C15.R5", c02R1)
+	// C15.R6 = C12.R9: a consumer that waits for <step>.disabled.output to finish "one way or the other" (!wait-optional,
+	// !ordisabled) is only ever released if the step accounts for every And-successor of a finished stage.
+	n0 := len(c.Obligations)
+	e0 := len(c.explanation)
+	c12Traces(c)
+	c.explanation = c.explanation[:e0]
+	c.explain("C15.R6 = C12.R9 every stage with a declared And-edge from a finished stage (disabled after enabling, in particular) is reported finished or impossible on every explored path of the step goroutine — otherwise a !wait-optional / !ordisabled field on that stage's output never finishes one way or the other")
+	kept := c.Obligations[:n0]
+	for _, o := range c.Obligations[n0:] {
+		if o.Rule == "C12.R9" {
+			o.Rule = "C15.R6"
+			kept = append(kept, o)
+		}
+	}
+	c.Obligations = kept
 }
